@@ -60,7 +60,14 @@ func c01OddFilter(c *rig.Ctx) {
 			}
 			for _, pr := range probes {
 				cmd := rig.CmdFor(fn.Fn, reflect.New(fn.T).Interface())
-				cmd.Function = util.Ptr(fn.Fn)
+				// the optional function element: the payload's name, empty (as senders write it next to a partial
+				// filter), or absent
+				switch r.Intn(3) {
+				case 0:
+					cmd.Function = util.Ptr(fn.Fn)
+				case 1:
+					cmd.Function = util.Ptr(model.FunctionType(""))
+				}
 				cmd.Filter = form.f
 				for _, q := range cw.w.Peers {
 					q.Tap.Take()
